@@ -11,6 +11,7 @@ import (
 	"github.com/sirupsen/logrus"
 
 	"hop.computer/hop/common"
+	"hop.computer/hop/pkg/verifhook"
 )
 
 // TubeType represents identifier bytes of Tubes.
@@ -103,6 +104,7 @@ func (r *Reliable) initiate(req bool) {
 			case created:
 				r.sendQueue <- p.toBytes()
 				r.l.Unlock()
+				verifhook.At("tubes.Reliable.initiate.sent")
 			default:
 				r.l.Unlock()
 				return
@@ -206,6 +208,7 @@ func (r *Reliable) send() {
 	sendQueue := r.sender.sendQueue                 // +checklocksignore accessing channels is safe
 	prioritySendQueue := r.sender.prioritySendQueue // +checklocksignore accessing channels is safe
 	for sendQueue != nil || prioritySendQueue != nil {
+		verifhook.At("tubes.Reliable.send.loop")
 		select {
 		// onTimeout sender
 		case <-r.sender.RetransmitTicker.C: // +checklocksignore accessing channels is safe
@@ -339,6 +342,7 @@ func (r *Reliable) send() {
 
 // receive is called by the muxer for each new packet
 func (r *Reliable) receive(pkt *frame) error {
+	verifhook.At("tubes.Reliable.receive.enter")
 	r.l.Lock()
 	defer r.l.Unlock()
 
@@ -454,6 +458,7 @@ func (r *Reliable) enterClosedState() {
 	r.recvWindow.Close()
 	if waitForSender {
 		r.l.Unlock()
+		verifhook.At("tubes.Reliable.enterClosed.window")
 		<-r.sendDone
 		r.l.Lock()
 	}
@@ -573,6 +578,7 @@ func (r *Reliable) ReadMsgUDP(b, oob []byte) (n, oobn, flags int, addr *net.UDPA
 // local sender. It does not wait for sender drain or peer acknowledgement; use
 // WaitForClose for lifecycle completion.
 func (r *Reliable) Close() (err error) {
+	verifhook.At("tubes.Reliable.Close.enter")
 	select {
 	case <-r.initDone:
 		break
